@@ -5,7 +5,6 @@ import (
 	"encoding/json"
 	"fmt"
 	"math/big"
-	"os"
 	"sort"
 	"strings"
 
@@ -797,9 +796,6 @@ func FailureKind(log string) string {
 		return "evm_revert"
 	case strings.TrimSpace(l) == "internal":
 		return "internal_error_redacted"
-	}
-	if os.Getenv("AGGSIM_DEBUG_OTHER") != "" {
-		fmt.Fprintf(os.Stderr, "OTHER: %.400s\n", log)
 	}
 	return "other"
 }
